@@ -10,7 +10,7 @@ echo "|---|---|---|---|" >> $out
 for d in seeded/*/; do
   n=$(basename $d); p=$(echo $n | cut -c1-3)
   git -C /repo diff --quiet || { echo "repo dirty"; exit 2; }
-  git -C /repo apply $d/patch.diff || { echo "| $n | $p | patch does not apply | |" >> $out; continue; }
+  git -C /repo apply /verif/$d/patch.diff || { echo "| $n | $p | patch does not apply | |" >> $out; continue; }
   res=$(./check $p --tier quick 2>/dev/null); rc=$?
   git -C /repo checkout -- .
   preds=$(echo "$res" | grep '^VIOLATION' | sed 's/.*predicate=\([A-Za-z0-9_]*\).*/\1/' | sort -u | head -4 | tr '\n' ' ')
